@@ -52,23 +52,23 @@ theorem Entry.oper {X : Setup} {a i : Nat} {T S : List Int} {C : List (Nat × Na
   exact (Except.ok.inj this).symm
 
 /-- a case that succeeds without touching the stacks or the captures: one success, no frames -/
-theorem deliver_one {X : Setup} {a i j k : Nat} {T S : List Int} {C : List (Nat × Nat × Nat)} {s s1 : VMState}
-    (he : Entry X a i T S C s) (hb : VM.body X.p X.env s = .ok (s1, .advance k))
+theorem deliver_one {X : Setup} {a i j k : Nat} {T S : List Int} {v : Int} {C : List (Nat × Nat × Nat)} {s s1 : VMState}
+    (he : Entry X a i (T ++ [v]) S C s) (hb : VM.body X.p X.env s = .ok (s1, .advance k))
     (h1 : s1.codepos = s.codepos) (htr : s1.track = s.track) (hst : s1.stack = s.stack) (hcap : s1.cap = s.cap)
     (htp : s1.textpos = (j : Int)) (hf : ∃ w, VM.fetch X.p (a + k + 1) = .ok w) :
     Delivers X (a + k + 1) T S S C [⟨j, C⟩] s := by
   obtain ⟨w, hw⟩ := hf
   have hpc : s1.codepos = a := by rw [h1, he.pc]
-  refine Delivers.single ?_ rfl
+  refine Delivers.single (v := v) ?_ rfl
   refine Leads.of_step (step_adv hb (by rw [hpc]; exact hw)) (Leads.here ?_)
   exact ⟨by simp [hpc], hw, htp, by simp [htr, he.tr], by simp [hst, he.st], by simp only [hcap]; exact he.cap⟩
 
 /-- a case that fails without touching the stacks or the captures -/
-theorem deliver_none {X : Setup} {a i b : Nat} {T S S' : List Int} {C : List (Nat × Nat × Nat)} {s s1 : VMState}
-    (he : Entry X a i T S C s) (hb : VM.body X.p X.env s = .ok (s1, .back))
+theorem deliver_none {X : Setup} {a i b : Nat} {T S S' : List Int} {v : Int} {C : List (Nat × Nat × Nat)} {s s1 : VMState}
+    (he : Entry X a i (T ++ [v]) S C s) (hb : VM.body X.p X.env s = .ok (s1, .back))
     (htr : s1.track = s.track) (hst : s1.stack = s.stack) (hcap : s1.cap = s.cap) :
     Delivers X b T S S' C [] s :=
-  Leads.here ⟨s1, hb, by rw [htr, he.tr], by rw [hst, he.st], by rw [hcap]; exact he.cap⟩
+  Delivers.fail (v := v) (Leads.here ⟨s1, hb, by rw [htr, he.tr], by rw [hst, he.st], by rw [hcap]; exact he.cap⟩)
 
 
 /-! ## the text -/
@@ -98,7 +98,7 @@ end text
 
 /-- a zero-width test -/
 theorem assert_delivers {X : Setup} {a i : Nat} {T S : List Int} {C : List (Nat × Nat × Nat)} {s : VMState} {ok : Bool}
-    (he : Entry X a i T S C s) (hb : VM.body X.p X.env s = .ok (VM.assertion s ok))
+    (he : Entry X a i (T ++ [v]) S C s) (hb : VM.body X.p X.env s = .ok (VM.assertion s ok))
     (hf : ∃ w, VM.fetch X.p (a + 1) = .ok w) :
     Delivers X (a + 1) T S S C (if ok then [⟨i, C⟩] else []) s := by
   cases ok with
@@ -110,13 +110,13 @@ theorem assert_delivers {X : Setup} {a i : Nat} {T S : List Int} {C : List (Nat 
 
 section anchors
 variable {X : Setup} {TPx : TP} {sets : List (List Nat)} {a i : Nat} {T S : List Int} {C : List (Nat × Nat × Nat)}
-  {s : VMState}
+  {s : VMState} {v : Int}
 
 theorem bare_oper {t : Nat} (he : Entry X a i T S C s) (hia : InstrAt X.p a (i0 t)) (ht : t < 64) :
     s.oper = ⟨t, false, false, false, false⟩ := by
   rw [he.oper hia]; exact decode_plain t ht
 
-theorem nothing_delivers (he : Entry X a i T S C s) (hia : InstrAt X.p a (i0 opNothing)) :
+theorem nothing_delivers (he : Entry X a i (T ++ [v]) S C s) (hia : InstrAt X.p a (i0 opNothing)) :
     Delivers X (a + 1) T S S C [] s := by
   have hoper := bare_oper he hia (by decide)
   have hop : Op.ofNat? s.oper.op = some .nothing := by rw [hoper]; rfl
@@ -125,7 +125,7 @@ theorem nothing_delivers (he : Entry X a i T S C s) (hia : InstrAt X.p a (i0 opN
   have hbody : VM.body X.p X.env s = .ok (s, .back) := by simp only [body, hop, modeOf, hb, hb2]
   exact deliver_none he hbody rfl rfl rfl
 
-theorem beginning_delivers (he : Entry X a i T S C s) (hia : InstrAt X.p a (i0 opBeginning))
+theorem beginning_delivers (he : Entry X a i (T ++ [v]) S C s) (hia : InstrAt X.p a (i0 opBeginning))
     (hf : ∃ w, VM.fetch X.p (a + 1) = .ok w) :
     Delivers X (a + 1) T S S C (Spec.m X.se (.anchor .beginning) false ⟨i, C⟩) s := by
   have hoper := bare_oper he hia (by decide)
@@ -138,7 +138,7 @@ theorem beginning_delivers (he : Entry X a i T S C s) (hia : InstrAt X.p a (i0 o
     rw [Bool.eq_iff_iff]; first | (simp; done) | (simp; omega)
   simpa [Spec.m] using assert_delivers he hbody hf
 
-theorem start_delivers (hrel : EnvRel TPx sets X.env X.se) (he : Entry X a i T S C s)
+theorem start_delivers (hrel : EnvRel TPx sets X.env X.se) (he : Entry X a i (T ++ [v]) S C s)
     (hia : InstrAt X.p a (i0 opStart)) (hf : ∃ w, VM.fetch X.p (a + 1) = .ok w) :
     Delivers X (a + 1) T S S C (Spec.m X.se (.anchor .start) false ⟨i, C⟩) s := by
   have hoper := bare_oper he hia (by decide)
@@ -151,7 +151,7 @@ theorem start_delivers (hrel : EnvRel TPx sets X.env X.se) (he : Entry X a i T S
     rw [Bool.eq_iff_iff]; first | (simp; done) | (simp; omega)
   simpa [Spec.m] using assert_delivers he hbody hf
 
-theorem end_delivers (hrel : EnvRel TPx sets X.env X.se) (hi : i ≤ X.se.n) (he : Entry X a i T S C s)
+theorem end_delivers (hrel : EnvRel TPx sets X.env X.se) (hi : i ≤ X.se.n) (he : Entry X a i (T ++ [v]) S C s)
     (hia : InstrAt X.p a (i0 opEnd)) (hf : ∃ w, VM.fetch X.p (a + 1) = .ok w) :
     Delivers X (a + 1) T S S C (Spec.m X.se (.anchor .end) false ⟨i, C⟩) s := by
   have hoper := bare_oper he hia (by decide)
@@ -164,7 +164,7 @@ theorem end_delivers (hrel : EnvRel TPx sets X.env X.se) (hi : i ≤ X.se.n) (he
     rw [Bool.eq_iff_iff]; first | (simp; done) | (simp; omega)
   simpa [Spec.m] using assert_delivers he hbody hf
 
-theorem bol_delivers (hrel : EnvRel TPx sets X.env X.se) (hi : i ≤ X.se.n) (he : Entry X a i T S C s)
+theorem bol_delivers (hrel : EnvRel TPx sets X.env X.se) (hi : i ≤ X.se.n) (he : Entry X a i (T ++ [v]) S C s)
     (hia : InstrAt X.p a (i0 opBol)) (hf : ∃ w, VM.fetch X.p (a + 1) = .ok w) :
     Delivers X (a + 1) T S S C (Spec.m X.se (.anchor .bol) false ⟨i, C⟩) s := by
   have hoper := bare_oper he hia (by decide)
@@ -182,7 +182,7 @@ theorem bol_delivers (hrel : EnvRel TPx sets X.env X.se) (hi : i ≤ X.se.n) (he
       simp [hpos, e, hch, hc, Except.map]
   simpa [Spec.m] using assert_delivers he hbody hf
 
-theorem eol_delivers (hrel : EnvRel TPx sets X.env X.se) (hi : i ≤ X.se.n) (he : Entry X a i T S C s)
+theorem eol_delivers (hrel : EnvRel TPx sets X.env X.se) (hi : i ≤ X.se.n) (he : Entry X a i (T ++ [v]) S C s)
     (hia : InstrAt X.p a (i0 opEol)) (hf : ∃ w, VM.fetch X.p (a + 1) = .ok w) :
     Delivers X (a + 1) T S S C (Spec.m X.se (.anchor .eol) false ⟨i, C⟩) s := by
   have hoper := bare_oper he hia (by decide)
@@ -201,7 +201,7 @@ theorem eol_delivers (hrel : EnvRel TPx sets X.env X.se) (hi : i ≤ X.se.n) (he
       simp [VM.assertion]
   simpa [Spec.m] using assert_delivers he hbody hf
 
-theorem endz_delivers (hrel : EnvRel TPx sets X.env X.se) (hi : i ≤ X.se.n) (he : Entry X a i T S C s)
+theorem endz_delivers (hrel : EnvRel TPx sets X.env X.se) (hi : i ≤ X.se.n) (he : Entry X a i (T ++ [v]) S C s)
     (hia : InstrAt X.p a (i0 opEndZ)) (hf : ∃ w, VM.fetch X.p (a + 1) = .ok w) :
     Delivers X (a + 1) T S S C (Spec.m X.se (.anchor (if TPx.strict then .end else .endz)) false ⟨i, C⟩) s := by
   have hoper := bare_oper he hia (by decide)
@@ -257,7 +257,7 @@ theorem isBoundary_spec (hrel : EnvRel TPx sets X.env X.se) (hi : i ≤ X.se.n) 
       simp [this, hn]
   rw [h1, h2]
 
-theorem boundary_delivers (hrel : EnvRel TPx sets X.env X.se) (hi : i ≤ X.se.n) (he : Entry X a i T S C s)
+theorem boundary_delivers (hrel : EnvRel TPx sets X.env X.se) (hi : i ≤ X.se.n) (he : Entry X a i (T ++ [v]) S C s)
     (hia : InstrAt X.p a (i0 opBoundary)) (hf : ∃ w, VM.fetch X.p (a + 1) = .ok w) :
     Delivers X (a + 1) T S S C (Spec.m X.se (.anchor .boundary) false ⟨i, C⟩) s := by
   have hoper := bare_oper he hia (by decide)
@@ -269,7 +269,7 @@ theorem boundary_delivers (hrel : EnvRel TPx sets X.env X.se) (hi : i ≤ X.se.n
     simp
   simpa [Spec.m] using assert_delivers he hbody hf
 
-theorem nonboundary_delivers (hrel : EnvRel TPx sets X.env X.se) (hi : i ≤ X.se.n) (he : Entry X a i T S C s)
+theorem nonboundary_delivers (hrel : EnvRel TPx sets X.env X.se) (hi : i ≤ X.se.n) (he : Entry X a i (T ++ [v]) S C s)
     (hia : InstrAt X.p a (i0 opNonboundary)) (hf : ∃ w, VM.fetch X.p (a + 1) = .ok w) :
     Delivers X (a + 1) T S S C (Spec.m X.se (.anchor .nonboundary) false ⟨i, C⟩) s := by
   have hoper := bare_oper he hia (by decide)
@@ -284,7 +284,7 @@ theorem nonboundary_delivers (hrel : EnvRel TPx sets X.env X.se) (hi : i ≤ X.s
 
 /-- every node type of the constructor `bare` that the fragment contains -/
 theorem bare_delivers (hrel : EnvRel TPx sets X.env X.se) (hi : i ≤ X.se.n) {t : Nat} {pat : Spec.Pat}
-    (hp : bareToPat TPx t = some pat) (ht : ¬ t = opUpdateBumpalong) (he : Entry X a i T S C s)
+    (hp : bareToPat TPx t = some pat) (ht : ¬ t = opUpdateBumpalong) (he : Entry X a i (T ++ [v]) S C s)
     (hia : InstrAt X.p a (i0 t)) (hf : ∃ w, VM.fetch X.p (a + 1) = .ok w) :
     Delivers X (a + 1) T S S C (Spec.m X.se pat false ⟨i, C⟩) s := by
   unfold bareToPat at hp
@@ -343,9 +343,9 @@ theorem predOk_set {X : Setup} {TPx : TP} {sets : List (List Nat)} (hrel : EnvRe
 
 section chars
 variable {X : Setup} {TPx : TP} {sets : List (List Nat)} {a i : Nat} {T S : List Int} {C : List (Nat × Nat × Nat)}
-  {s : VMState}
+  {s : VMState} {v : Int}
 
-theorem caseChar_delivers (hrel : EnvRel TPx sets X.env X.se) (hi : i ≤ X.se.n) (he : Entry X a i T S C s)
+theorem caseChar_delivers (hrel : EnvRel TPx sets X.env X.se) (hi : i ≤ X.se.n) (he : Entry X a i (T ++ [v]) S C s)
     {sel : Nat} {x : Int} {P : Spec.Pred} {ins : Instr} (hia : InstrAt X.p a ins) (hx : ins.args[0]? = some x)
     (hbody : VM.body X.p X.env s = VM.caseChar X.p X.env sel s) (hrtl : s.oper.rtl = false)
     (hpred : PredOk X sel x P) (hf : ∃ w, VM.fetch X.p (a + 2) = .ok w) :
@@ -390,7 +390,7 @@ end chars
 
 section multi
 variable {X : Setup} {TPx : TP} {sets : List (List Nat)} {a i : Nat} {T S : List Int} {C : List (Nat × Nat × Nat)}
-  {s : VMState}
+  {s : VMState} {v : Int}
 
 theorem take_succ_eq_iff {α : Type} (l1 l2 : List α) (k : Nat) (x y : α) (h1 : l1[k]? = some x) (h2 : l2[k]? = some y) :
     l1.take (k + 1) = l2.take (k + 1) ↔ l1.take k = l2.take k ∧ x = y := by
@@ -437,7 +437,7 @@ theorem cmpBack_spec (hrel : EnvRel TPx sets X.env X.se) (str : List Nat) (i : N
       have : ¬ c = x := fun h => heq h.symm
       simp [this]
 
-theorem multi_delivers (hrel : EnvRel TPx sets X.env X.se) (hi : i ≤ X.se.n) (he : Entry X a i T S C s)
+theorem multi_delivers (hrel : EnvRel TPx sets X.env X.se) (hi : i ≤ X.se.n) (he : Entry X a i (T ++ [v]) S C s)
     {k : Nat} {str : List Nat} (hia : InstrAt X.p a (i1 (opMulti ||| bits false false) (k : Int)))
     (hstr : X.p.strings[k]? = some str) (hf : ∃ w, VM.fetch X.p (a + 2) = .ok w) :
     Delivers X (a + 2) T S S C (Spec.m X.se (nestSeq (str.map (fun r => .chr (.one r false)))) false ⟨i, C⟩) s := by
@@ -636,6 +636,28 @@ theorem stop_step (he : Entry X a i T S C s) (hia : InstrAt X.p a (i0 opStop)) :
   have hb2 : s.oper.back2 = false := by rw [hoper]
   have hbody : VM.body X.p X.env s = .ok (s, .halt) := by simp only [body, hop, modeOf, hb, hb2]
   rw [step_of_body_ok X.p X.env hbody]; rfl
+
+/-- `UpdateBumpalong`: the bottom slot of the backtracking stack is raised to the text position; one success, nothing
+    else changes (what `Delivers` says "up to the bottom slot") -/
+theorem updatebumpalong_delivers {v : Int} (he : Entry X a i (T ++ [v]) S C s) (hia : InstrAt X.p a (i0 opUpdateBumpalong))
+    (hf : ∃ w, VM.fetch X.p (a + 1) = .ok w) : Delivers X (a + 1) T S S C [⟨i, C⟩] s := by
+  obtain ⟨w, hw⟩ := hf
+  have hoper : s.oper = ⟨opUpdateBumpalong, false, false, false, false⟩ := by
+    rw [he.oper hia]; exact decode_plain opUpdateBumpalong (by decide)
+  have hop : Op.ofNat? s.oper.op = some .updatebumpalong := by rw [hoper]; rfl
+  have hb : s.oper.back = false := by rw [hoper]
+  have hb2 : s.oper.back2 = false := by rw [hoper]
+  by_cases hlt : v < (i : Int)
+  · have hbody : VM.body X.p X.env s = .ok ({ s with track := T ++ [(i : Int)] }, .advance 0) := by
+      simp only [body, hop, modeOf, hb, hb2, caseUpdateBumpalong, he.tr, he.tp]
+      simp [hlt]
+    refine Delivers.single (v := (i : Int)) (Leads.of_step (step_adv hbody (by simp only [he.pc]; exact hw)) (Leads.here ?_)) rfl
+    exact ⟨by simp [he.pc], hw, he.tp, rfl, he.st, he.cap⟩
+  · have hbody : VM.body X.p X.env s = .ok (s, .advance 0) := by
+      simp only [body, hop, modeOf, hb, hb2, caseUpdateBumpalong, he.tr, he.tp]
+      simp [hlt]
+    refine Delivers.single (v := v) (Leads.of_step (step_adv hbody (by simp only [he.pc]; exact hw)) (Leads.here ?_)) rfl
+    exact ⟨by simp [he.pc], hw, he.tp, he.tr, he.st, he.cap⟩
 
 end control
 
